@@ -172,6 +172,10 @@ func c05Inputs() []c05Input {
 	add("basic-unknown-user", "bad", basicHdr("mallory", passA))
 	add("basic-empty-password", "bad", basicHdr(userA, ""))
 	add("basic-empty-user", "bad", basicHdr("", passA))
+	// bytes that are not UTF-8 inside otherwise right credentials: other credentials, never confirmed
+	add("basic-password-with-an-invalid-byte", "bad", basicHdr(userA, passA[:7]+"\xff"+passA[7:]))
+	add("basic-password-with-a-truncated-utf8-sequence", "bad", basicHdr(userA, passA+"\xc3"))
+	add("basic-user-with-an-invalid-byte", "bad", basicHdr(userA[:4]+"\xfe"+userA[4:], passA))
 	add("basic-not-base64", "bad", "Authorization: Basic !!!!")
 	add("basic-no-colon", "bad", "Authorization: Basic "+base64.StdEncoding.EncodeToString([]byte(userA+passA)))
 	add("basic-lowercase-scheme", "unspecified", strings.Replace(basicHdr(userA, passA), "Basic", "basic", 1))
